@@ -185,8 +185,41 @@ let cmd_sched_replay () =
     done
   with End_of_file -> flush ()
 
+(* ---------------- flow validation ----------------
+   one flow per line:  P n n .. | R n n .. | T ins outs pred inv | T ...
+   ins/outs: comma-separated numbers or "-" for none; pred: "-" = no predicate,
+   "_" = predicate without inputs, else comma-separated numbers; inv: 0/1 *)
+let nats_of s = if s = "-" || s = "_" then [] else List.map nat (String.split_on_char ',' s)
+let show_diag = function
+  | DDupParam -> "DupParam" | DNoOutput -> "NoOutput" | DInvokeWithOutputs -> "InvokeWithOutputs"
+  | DDupProvider -> "DupProvider" | DUnusedOutput -> "UnusedOutput" | DNoProvider -> "NoProvider"
+  | DUnusedInput -> "UnusedInput" | DCycle -> "Cycle"
+let parse_flow line =
+  let parts = List.map String.trim (String.split_on_char '|' line) in
+  let params = ref [] and results = ref [] and tasks = ref [] in
+  List.iter (fun p ->
+    match split_ws p with
+    | "P" :: r -> params := List.map nat r
+    | "R" :: r -> results := List.map nat r
+    | ["T"; i; o; pr; inv] ->
+      tasks := { tins = nats_of i; touts = nats_of o;
+                 tpred = (if pr = "-" then None else Some (nats_of pr)); tinvoke = (inv = "1") } :: !tasks
+    | [] -> ()
+    | _ -> failwith ("bad flow part: " ^ p)) parts;
+  { fparams = !params; fresults = !results; ftasks = List.rev !tasks }
+let cmd_validate () =
+  try
+    while true do
+      let line = input_line stdin in
+      let f = parse_flow line in
+      let ds = List.sort_uniq compare (List.map show_diag (validate f)) in
+      Printf.printf "%s | wf=%b | %s\n" (if accepts f then "ACCEPT" else "REJECT") (wf_b f) (String.concat "," ds)
+    done
+  with End_of_file -> ()
+
 let () =
   match Array.to_list Sys.argv with
+  | _ :: "validate" :: _ -> cmd_validate ()
   | _ :: "sched-replay" :: _ -> cmd_sched_replay ()
   | _ :: "invert" :: _ -> cmd_invert ()
   | _ :: "genname" :: _ -> cmd_genname ()
